@@ -307,10 +307,26 @@ def rule_bounds(ck):
             return
         if isinstance(x, ast.Call) and P.canon(f, x.func) in ('numpy.array', 'numpy.asarray') and x.args:
             return flat2(x.args[0], depth + 1)
+        # numpy.array(rows).reshape(-1, 4): the rows as they are
+        if isinstance(x, ast.Call) and isinstance(x.func, ast.Attribute) and x.func.attr == 'reshape' and len(x.args) == 2 \
+                and const_value(x.args[0]) == -1 and const_value(x.args[1]) == 4:
+            return flat2(x.func.value, depth + 1)
         if isinstance(x, ast.Name) and depth < 8:
             defs = [a_ for a_ in find_assignments(f, x.id) if isinstance(a_, ast.Assign)]
-            if len(defs) == 1 and isinstance(defs[0].value, ast.Call) and P.canon(f, defs[0].value.func) in ('numpy.column_stack', 'numpy.array', 'numpy.asarray'):
+            if len(defs) == 1 and isinstance(defs[0].value, ast.Call) and (
+                    P.canon(f, defs[0].value.func) in ('numpy.column_stack', 'numpy.array', 'numpy.asarray') or
+                    (isinstance(defs[0].value.func, ast.Attribute) and defs[0].value.func.attr == 'reshape')):
                 return flat2(defs[0].value, depth + 1)
+            # a list of row tuples: one column per component
+            if len(defs) == 1 and isinstance(defs[0].value, ast.ListComp) and isinstance(defs[0].value.elt, (ast.Tuple, ast.List)) \
+                    and len(defs[0].value.elt.elts) == 4:
+                for comp in defs[0].value.elt.elts:
+                    col = ast.ListComp(elt=comp, generators=defs[0].value.generators)
+                    ast.copy_location(col, defs[0].value)
+                    ast.fix_missing_locations(col)
+                    col._parent = getattr(defs[0].value, '_parent', None)
+                    flat2(col, depth + 1)
+                return
         el = element_of(P, f, x0)
         t = u(canon_calls(P, f, el))
         t = t.replace('numpy.asarray(%s)' % qk, qk)
@@ -420,8 +436,11 @@ def rule_point_lookup(ck):
     o = ck.ob('C17-D4.each', gi, 'every point is located by _find_location', gi.node)
     calls = [n for n in all_nodes(gi) if isinstance(n, ast.Call) and callee(P, gi, n) == Q + '_find_location']
     ok = len(calls) == 2 and any(u(c.args[0]) == 'lons[i]' and u(c.args[1]) == 'lats[i]' for c in calls) and any(u(c.args[0]) == 'lons' and u(c.args[1]) == 'lats' for c in calls)
+    # one pass over the points in order: a for loop or a comprehension over range(len(lons))
     lp = [n for n in all_nodes(gi) if isinstance(n, ast.For)]
-    ok = ok and len(lp) == 1 and u(lp[0].iter) == 'range(len(lons))'
+    comps = [g_ for n in all_nodes(gi) if isinstance(n, (ast.ListComp, ast.GeneratorExp)) for g_ in n.generators]
+    passes = [u(x.iter) for x in lp] + [u(g_.iter) for g_ in comps if not g_.ifs]
+    ok = ok and passes == ['range(len(lons))']
     (o.ok() if ok else o.fail('get_index_of does not call _find_location(lon_i, lat_i) for every point in order'))
     # ... with the coordinates it was given: nothing folds, shifts or rounds a longitude / latitude on the way (a point on the last
     # edge of the range, lon = 180, would be moved into the first column)
